@@ -19,7 +19,7 @@ def ideal_space(tier, seed, coarse=False):
         "mixture": _mixtures(tier),
         "model": ["NRTL", "UNIQUAC"],
         "mode": modes,
-        "prog": ["none", "poly", "exp", "log"] if q else ["none", "poly", "exp", "log", "poly3", "exp3", "log3"],
+        "prog": ["none", "poly3", "exp", "log3"] if q else ["none", "poly", "exp", "log", "poly3", "exp3", "log3"],
         "area": [0.05, 1.0] if q else [0.05, 1.0, 30.0],
         "amount": [0.047, 50.0],
         "dt": core.lat([0.1, 2.0], seed),
@@ -57,7 +57,7 @@ def nonideal_space(tier, seed):
         "mixture": ["H2O_EtOH", "S2"] if q else ["H2O_EtOH", "MeOH_DMC", "S2", "S4"],
         "model": ["NRTL", "UNIQUAC"],
         "mode": ["vac", ("T", -20.0), ("p", 0.5)] if q else ["vac", ("T", -60.0), ("T", -20.0), ("p", 0.5)],
-        "prog": ["none", "poly", "exp", "log"] if q else ["none", "poly", "exp3", "log3"],
+        "prog": ["none", "poly3", "exp", "log3"] if q else ["none", "poly", "exp3", "log3"],
         "curves": [CURVE_CONFIGS["one"], CURVE_CONFIGS["two"]] if q else list(CURVE_CONFIGS.values()),
         "init_perm": [None, {"values": (2.5e-2, 3.0e-5)}] if q else [None, {"values": (2.5e-2, 3.0e-5)},
                                                                      {"values": (1.0e-2, 8.0e-5), "units": "GPU"}],
